@@ -38,6 +38,8 @@ def main():
             return 2
         try:
             env = dict(os.environ)
+            env.setdefault("VERIF_EVIDENCE_DIR",
+                           os.path.join(VERIF, "out", "mut", "evidence"))
             env["VERIF_HAVE_REPO_LOCK"] = "1"
             rc = subprocess.run(cmd, cwd=VERIF, env=env).returncode
         finally:
